@@ -1,9 +1,13 @@
 (* C08 — hard money market: LTV gate, liquidation only of unsafe positions, monotone interest.
-   Property theorems only; proofs are in Proofs/Hard.v.  The model follows the code after the two
+   Property theorems only; proofs are in Proofs/Hard.v.  The model follows the code after the
    fix commits (ValidateBorrow also applies the liquidation valuation to the resulting position;
-   CalculateSupplyInterestFactor returns one for a non-positive supply).  The two minimised
-   histories on which the earlier code violated the property are kept as regression examples. *)
-From Kava Require Import Base.Prelude Base.Dec Model.Hard Proofs.Hard.
+   CalculateSupplyInterestFactor returns one for a non-positive supply; CalculateUtilizationRatio
+   does not divide by zero; loadSyncedDeposit rounds like SyncSupplyInterest).  The two minimised
+   histories on which the earlier code violated the property are kept as regression examples.
+   The second half of the file (from "the state invariant") states the invariant [HInv] for all
+   histories (Proofs/HardInv.v) and restates the conditional theorems for reachable states without
+   their hypotheses; Proofs/HardSync.v relates the handlers' interest sync to the queries. *)
+From Kava Require Import Base.Prelude Base.Dec Model.Hard Proofs.Hard Proofs.HardInv Proofs.HardInvB Proofs.HardSync.
 Local Open Scope Z_scope.
 
 (** * LTV gate *)
@@ -261,3 +265,282 @@ Proof. vm_compute. exact I. Qed.
 Example C08_inv_on_witness :
   inv_b wa_env (run wa_env wa_init wa_prefix) = true /\ inv_b wb_env (run wb_env wb_init wb_prefix) = true.
 Proof. split; vm_compute; reflexivity. Qed.
+
+(** * the state invariant, for all histories *)
+
+(* [HInv e s]: every global interest factor is >= 1; every stored deposit and borrow has
+   non-negative amounts, an index entry for each of its coins, and every index entry lies between
+   one and the global factor of its denom (which exists); total supplied, borrowed and reserves are
+   non-negative.  It holds at every genesis of the model, is kept by every operation (deposit,
+   withdraw, borrow, repay by owner or third party, liquidation with its auctions, price change,
+   donation to the module account, governance parameter change, begin blocker with market
+   add/copy/drop) for ANY arguments and ANY oracle factors (an oracle factor below one never gets as
+   far as updating an index: AccrueInterest panics on the negative interest first), hence in every
+   state of every history. *)
+Theorem C08_invariant_genesis :
+  forall e bals prices prevs mms, HInv e (mk_state bals prices prevs mms).
+Proof. exact genesis_inv. Qed.
+Print Assumptions C08_invariant_genesis.
+
+Theorem C08_invariant_step :
+  forall e s o, HInv e s -> HInv e (step' e s o).
+Proof. intros e s o I. apply step'_inv, I. Qed.
+Print Assumptions C08_invariant_step.
+
+Theorem C08_invariant_all_histories :
+  forall e bals prices prevs mms ops, HInv e (run e (mk_state bals prices prevs mms) ops).
+Proof. exact invariant_all_histories. Qed.
+Print Assumptions C08_invariant_all_histories.
+
+(* With non-negative genesis balances and prices, the boolean invariant [inv_b] that the
+   correspondence run evaluates on every model state (records non-empty with non-negative amounts
+   and an index entry per coin, borrow indexes >= 1, totals, prices and all bank balances
+   non-negative) is true in every state of every history: balances stay non-negative through every
+   bank send of every handler, including the auction lots, keeper reward and returned remainder of
+   a liquidation.  (The run evaluates it on re-tabulated states; their equality with the plain
+   [run] on the environment's index ranges is observed, not proved.) *)
+Theorem C08_inv_b_all_histories :
+  forall e bals prices prevs mms ops,
+  (forall a d, 0 <= nthZ (nth a bals []) d) -> (forall d, 0 <= nthZ prices d) ->
+  inv_b e (run e (mk_state bals prices prevs mms) ops) = true.
+Proof. exact inv_b_all_histories. Qed.
+Print Assumptions C08_inv_b_all_histories.
+
+(* the invariant gives the hypotheses of the conditional theorems above *)
+Theorem C08_invariant_gives_hypotheses :
+  forall e s, HInv e s ->
+  fac_nonneg (sfac s) /\ fac_nonneg (bfac s) /\ (forall x, 0 <= tbor s x) /\
+  (forall u r, dep s u = Some r -> (forall d, 0 <= amt r d) /\ idx_sound (sfac s) r) /\
+  (forall u r, bor s u = Some r -> (forall d, 0 <= amt r d) /\ idx_sound (bfac s) r).
+Proof.
+  intros e s I. split; [apply fac_ge1_nonneg, (hi_sfac _ _ I)|]. split; [apply fac_ge1_nonneg, (hi_bfac _ _ I)|].
+  split; [apply (hi_tbor _ _ I)|]. split; intros u r E.
+  - pose proof (hi_dep _ _ I u r E) as R. split; [apply R|eapply rec_sound_idx_sound; eauto].
+  - pose proof (hi_bor _ _ I u r E) as R. split; [apply R|eapply rec_sound_idx_sound; eauto].
+Qed.
+Print Assumptions C08_invariant_gives_hypotheses.
+
+(** * interest, over whole histories *)
+
+(* [targets o u]: operation [o] is addressed to the position of user [u] (deposit, withdraw, borrow
+   by u; repayment of u's debt by anyone; liquidation of u).  Along ANY history without such an
+   operation -- other users' deposits, withdrawals, borrows, repayments and liquidations, u acting as
+   keeper or repaying somebody else, price changes, donations, parameter changes that remove and
+   re-add money markets, begin blocks with any time gaps and any oracle factors -- what
+   GetSyncedDeposit and GetSyncedBorrow report for u never decreases in any denom and never starts
+   to panic.  (A removed market keeps its interest factors and its accrual time in the store; a
+   re-added market continues from them.) *)
+Theorem C08_interest_monotone_supply_all_histories :
+  forall e s u ops c,
+  HInv e s -> Forall (fun o => ~ targets o u) ops ->
+  synced_deposit e s u = Some (Ok c tt) ->
+  exists c', synced_deposit e (run e s ops) u = Some (Ok c' tt) /\ forall d, c d <= c' d.
+Proof. exact synced_deposit_monotone_history. Qed.
+Print Assumptions C08_interest_monotone_supply_all_histories.
+
+Theorem C08_interest_monotone_borrow_all_histories :
+  forall e s u ops c,
+  HInv e s -> Forall (fun o => ~ targets o u) ops ->
+  synced_borrow e s u = Some (Ok c tt) ->
+  exists c', synced_borrow e (run e s ops) u = Some (Ok c' tt) /\ forall d, c d <= c' d.
+Proof. exact synced_borrow_monotone_history. Qed.
+Print Assumptions C08_interest_monotone_borrow_all_histories.
+
+(* one begin block on a state satisfying the invariant: [C08_interest_monotone_borrow] and
+   [C08_interest_monotone_supply] without their side hypotheses (and for any oracle factors) *)
+Theorem C08_interest_monotone_block_reachable :
+  forall e s t fs s' u, HInv e s -> begin_block e s t fs = Ok s' tt ->
+  (forall c, synced_deposit e s u = Some (Ok c tt) ->
+     exists c', synced_deposit e s' u = Some (Ok c' tt) /\ forall d, c d <= c' d) /\
+  (forall c, synced_borrow e s u = Some (Ok c tt) ->
+     exists c', synced_borrow e s' u = Some (Ok c' tt) /\ forall d, c d <= c' d).
+Proof. exact interest_monotone_block. Qed.
+Print Assumptions C08_interest_monotone_block_reachable.
+
+(* from genesis: after any history [ops0] whatsoever, along any continuation without an operation
+   addressed to u *)
+Theorem C08_no_action_never_decreases :
+  forall e bals prices prevs mms ops0 ops u,
+  Forall (fun o => ~ targets o u) ops ->
+  let s := run e (mk_state bals prices prevs mms) ops0 in
+  let s' := run e s ops in
+  (forall c, synced_deposit e s u = Some (Ok c tt) ->
+     exists c', synced_deposit e s' u = Some (Ok c' tt) /\ forall d, c d <= c' d) /\
+  (forall c, synced_borrow e s u = Some (Ok c tt) ->
+     exists c', synced_borrow e s' u = Some (Ok c' tt) /\ forall d, c d <= c' d).
+Proof.
+  intros e bals prices prevs mms ops0 ops u Hf s s'.
+  pose proof (invariant_all_histories e bals prices prevs mms ops0) as I. fold s in I.
+  split; intros c Hc.
+  - apply (synced_deposit_monotone_history e s u ops c I Hf Hc).
+  - apply (synced_borrow_monotone_history e s u ops c I Hf Hc).
+Qed.
+Print Assumptions C08_no_action_never_decreases.
+
+(* the queries themselves: on a state satisfying the invariant GetSyncedDeposit never panics, and
+   GetSyncedBorrow does not when the borrow factors are at most 10^18; both report at least the
+   stored amounts *)
+Theorem C08_synced_queries_do_not_panic :
+  forall e s u, HInv e s ->
+  (forall r, dep s u = Some r -> exists c, synced_deposit e s u = Some (Ok c tt) /\ forall d, amt r d <= c d) /\
+  ((forall d F, bfac s d = Some F -> F <= PREC * PREC) ->
+   forall r, bor s u = Some r -> exists c, synced_borrow e s u = Some (Ok c tt) /\ forall d, amt r d <= c d).
+Proof. exact synced_queries_ok. Qed.
+Print Assumptions C08_synced_queries_do_not_panic.
+
+(* non-vacuity, and the market removal / re-add case concretely: after the accrual of [wa_prefix]
+   (supply index of denom 2 about 4.3) governance removes market 2, a block drops it from the
+   store, governance re-adds it, two more blocks pass: the index is kept, never reset, and user 0's
+   claimable deposit does not shrink *)
+Definition wd_ops : list op :=
+  [SetParams (map (fun d => if Nat.eqb d 2 then None else params wa_init d) (seq 0 5));
+   BeginBlock 1752796800 [1000000000000000000; 1000000000000000000; 1004630961015383585; 1000000000000000000];
+   SetParams (map (params wa_init) (seq 0 5));
+   BeginBlock 1752883200 [1000000000000000000; 1000000000000000000; 1000000000000000000; 1000000000000000000];
+   BeginBlock 1752969600 [1000000000000000000; 1000000000000000000; 1004630961015383585; 1000000000000000000]].
+Example C08_market_readd_keeps_index :
+  let s := run wa_env wa_init (firstn 6 wa_prefix) in
+  let s1 := run wa_env s (firstn 2 wd_ops) in
+  let s2 := run wa_env s wd_ops in
+  Forall (fun o => ~ targets o 0%nat) wd_ops /\
+  mkts s 2%nat <> None /\ mkts s1 2%nat = None /\ mkts s2 2%nat <> None /\
+  match sfac s 2%nat, sfac s1 2%nat, sfac s2 2%nat with
+  | Some f, Some f1, Some f2 => PREC < f /\ f <= f1 /\ f1 < f2
+  | _, _, _ => False
+  end /\
+  match synced_deposit wa_env s 0%nat, synced_deposit wa_env s2 0%nat with
+  | Some (Ok c _), Some (Ok c' _) => 0 < c 2%nat /\ c 2%nat < c' 2%nat
+  | _, _ => False
+  end.
+Proof.
+  cbv zeta. split; [repeat constructor; intros []|].
+  vm_compute. repeat split; discriminate.
+Qed.
+
+(** * caps, scope and begin blocker on reachable states (no side hypotheses) *)
+
+(* a successful MsgWithdraw pays min(requested, synced deposit) per denom, never more than the
+   deposit as synced by the handler, and the record keeps the rest *)
+Theorem C08_withdraw_capped_reachable :
+  forall e s u c s', HInv e s -> step e s (Withdraw u c) = Ok s' tt ->
+  exists s2 r, sync_position e s u = Ok s2 tt /\ dep s2 u = Some r /\
+    let moved := capped e (of_list c) (amt r) in
+    (forall d, bal s' u d = bal s u d + moved d /\ bal s' (hacc e) d = bal s (hacc e) d - moved d) /\
+    (forall d, 0 <= moved d <= amt r d) /\ (forall d, moved d <= of_list c d) /\
+    ceq (nd e) (amt_of (dep s' u)) (csub (amt r) moved).
+Proof. exact withdraw_capped_inv. Qed.
+Print Assumptions C08_withdraw_capped_reachable.
+
+Theorem C08_repay_capped_reachable :
+  forall e s a o c s', HInv e s -> step e s (Repay a o c) = Ok s' tt ->
+  exists s2 r, sync_borrow e s o = Ok s2 tt /\ bor s2 o = Some r /\
+    let pay := capped e (of_list c) (amt r) in
+    (forall d, bal s' a d = bal s a d - pay d /\ bal s' (hacc e) d = bal s (hacc e) d + pay d) /\
+    (forall d, 0 <= pay d <= amt r d) /\ (forall d, pay d <= of_list c d) /\
+    ceq (nd e) (amt_of (bor s' o)) (csub (amt r) pay).
+Proof. exact repay_capped_inv. Qed.
+Print Assumptions C08_repay_capped_reachable.
+
+(* the debt synced inside MsgRepay is exactly what GetSyncedBorrow reported before the message:
+   a repayment never exceeds the synced debt as the query shows it *)
+Theorem C08_repay_capped_by_query :
+  forall e s a o c s', HInv e s -> step e s (Repay a o c) = Ok s' tt ->
+  exists q, synced_borrow e s o = Some (Ok q tt) /\
+    forall d, bal s' a d = bal s a d - capped e (of_list c) q d /\
+              bal s' (hacc e) d = bal s (hacc e) d + capped e (of_list c) q d /\
+              0 <= capped e (of_list c) q d <= q d.
+Proof. exact repay_capped_by_query. Qed.
+Print Assumptions C08_repay_capped_by_query.
+
+(* and the deposit synced inside MsgWithdraw is exactly what GetSyncedDeposit reported before the
+   message (loadSyncedDeposit rounds Mul-then-Quo like SyncSupplyInterest since fix 6c61e7a5b):
+   a withdrawal never exceeds the synced deposit as the query shows it *)
+Theorem C08_withdraw_capped_by_query :
+  forall e s u c s', HInv e s -> step e s (Withdraw u c) = Ok s' tt ->
+  exists q, synced_deposit e s u = Some (Ok q tt) /\
+    forall d, bal s' u d = bal s u d + capped e (of_list c) q d /\
+              bal s' (hacc e) d = bal s (hacc e) d - capped e (of_list c) q d /\
+              0 <= capped e (of_list c) q d <= q d.
+Proof. exact withdraw_capped_by_query. Qed.
+Print Assumptions C08_withdraw_capped_by_query.
+
+(* regression: the history on which the earlier loadSyncedDeposit (amount/index*factor) reported
+   1 ukava while MsgWithdraw paid 2 -- user 2 deposits 1 ukava at supply index 1.148673, a later
+   accrual doubles the index exactly -- now reports 2, and 2 is paid *)
+Definition wr_env : env := mk_env 5 4 0.
+Definition wr_init : state := mk_state [[100000000000000000; 100000000000000000; 1000000000000000; 1000000000000000000000000000; 1000000000000000]; [100000000000000000; 100000000000000000; 1000000000000000; 1000000000000000000000000000; 1000000000000000]; [100000000000000000; 100000000000000000; 1000000000000000; 1000000000000000000000000000; 1000000000000000]; [4000000000; 4000000000; 40000000; 40000000000000000000; 40000000]; [0; 0; 0; 0; 0]; [0; 0; 0; 0; 0]] [300000000000000000000; 1000000000000000000; 1000000000000000000; 2000000000000000000000; 0] [Some 1704067200; Some 1704067200; Some 1704067200; Some 1704067200; None]
+  [Some (mkMarket 100000000 800000000000000000 false 0 25000000000000000 50000000000000000 800000000000000000 2000000000000000000 800000000000000000 10000000000000000000); Some (mkMarket 100000000 600000000000000000 false 0 25000000000000000 50000000000000000 800000000000000000 2000000000000000000 800000000000000000 10000000000000000000); Some (mkMarket 1000000 600000000000000000 false 0 0 50000000000000000 800000000000000000 2000000000000000000 800000000000000000 10000000000000000000); Some (mkMarket 1000000000000000000 750000000000000000 false 0 50000000000000000 50000000000000000 800000000000000000 2000000000000000000 800000000000000000 10000000000000000000); None].
+Definition wr_ops : list op := [Deposit 0%nat [(2%nat, 1000000)];
+  Deposit 1%nat [(0%nat, 100000000000)];
+  Borrow 1%nat [(2%nat, 1000000)];
+  BeginBlock 1706659200 [1000000000000000000; 1000000000000000000; 1148673884606207604; 1000000000000000000];
+  Deposit 2%nat [(2%nat, 1)];
+  BeginBlock 1719621213 [1000000000000000000; 1000000000000000000; 2000000937117696188; 1000000000000000000];
+  Deposit 0%nat [(2%nat, 1000)]].
+Definition wr_check : bool :=
+  let s := run wr_env wr_init wr_ops in
+  match step wr_env s (Withdraw 2%nat [(2%nat, 10)]), synced_deposit wr_env s 2%nat, sfac s 2%nat with
+  | Ok s1 _, Some (Ok q1 _), Some f =>
+      (f =? 2297346000000000000) && (q1 2%nat =? 2) && (bal s1 2%nat 2%nat - bal s 2%nat 2%nat =? 2)
+  | _, _, _ => false
+  end.
+Example C08_synced_deposit_rounds_like_sync : wr_check = true.
+Proof. vm_compute. reflexivity. Qed.
+
+(* a liquidation leaves every other user's position exactly as it was: the deposit and borrow
+   records with their index lists, and (the global factors being untouched) the synced amounts *)
+Theorem C08_liq_others_untouched :
+  forall e s k b s', liquidate e s k b = Ok s' tt -> forall v, v <> b ->
+  dep s' v = dep s v /\ bor s' v = bor s v /\
+  synced_deposit e s' v = synced_deposit e s v /\ synced_borrow e s' v = synced_borrow e s v.
+Proof. exact liquidate_others_untouched. Qed.
+Print Assumptions C08_liq_others_untouched.
+
+(* MsgLiquidate on a state satisfying the invariant, in one statement: only the borrower's records
+   are removed; every other user keeps records, index lists and synced amounts; at most the
+   (non-negative) synced deposit leaves the module per denom, auction lots, keeper reward and
+   returned remainder together; the keeper gets exactly the truncated share; nobody else's balance
+   moves *)
+Theorem C08_liq_scope_reachable :
+  forall e s k b s', HInv e s -> step e s (Liquidate k b) = Ok s' tt ->
+  exists s2 dp, sync_position e s b = Ok s2 tt /\ dep s2 b = Some dp /\ (forall d, 0 <= amt dp d) /\
+    dep s' b = None /\ bor s' b = None /\
+    (forall v, v <> b -> dep s' v = dep s v /\ bor s' v = bor s v /\
+                         synced_deposit e s' v = synced_deposit e s v /\ synced_borrow e s' v = synced_borrow e s v) /\
+    (forall d, (d < nd e)%nat -> bal s (hacc e) d - bal s' (hacc e) d <= amt dp d) /\
+    (k <> b -> forall d, (d < nd e)%nat ->
+       bal s' k d = bal s k d + Z.max 0 (dec_trunc_int (dec_mul_int (keeper_pct s2 d) (amt dp d)))) /\
+    (forall x d, x <> hacc e -> x <> aacc e -> x <> b -> x <> k -> bal s' x d = bal s x d).
+Proof. exact liq_scope_inv. Qed.
+Print Assumptions C08_liq_scope_reachable.
+
+(* hard.BeginBlocker never panics on a reachable state: from any state satisfying the invariant
+   with valid reserve factors, after any history whose parameter changes carry valid reserve
+   factors, for oracle factors >= 1 *)
+Theorem C08_begin_block_no_panic_reachable :
+  forall e s ops t fs,
+  HInv e s -> mkts_ok s -> Forall op_params_ok ops ->
+  (forall d, (d < nd e)%nat -> PREC <= nthZ fs d) ->
+  exists s', begin_block e (run e s ops) t fs = Ok s' tt.
+Proof. exact begin_block_no_panic_reachable. Qed.
+Print Assumptions C08_begin_block_no_panic_reachable.
+
+Theorem C08_genesis_markets_ok :
+  forall bals prices prevs mms,
+  (forall d m, nthO mms d = Some m -> 0 <= m_reserve m <= PREC) -> mkts_ok (mk_state bals prices prevs mms).
+Proof. exact genesis_mkts_ok. Qed.
+Print Assumptions C08_genesis_markets_ok.
+
+(* bookkeeping: the totals (supplied, borrowed, reserves) are part of the model and non-negative
+   by the invariant, but they are NOT the sums of the positions -- per-user interest is truncated
+   per user, the totals per market (the code clamps its decrements for this reason).  No clause of
+   the property rests on such an equality: the caps use the user's own synced record, the
+   "lack of cash" clause the module's bank balance.  Witness: after the accrual of [wa_prefix] the
+   synced deposits of denom 2 add up to one unit less than the supplied total. *)
+Example C08_totals_are_not_sums_of_positions :
+  let s := run wa_env wa_init (firstn 6 wa_prefix) in
+  match synced_deposit wa_env s 0%nat, dep s 1%nat, dep s 2%nat, dep s 3%nat with
+  | Some (Ok c _), Some r1, Some r2, None => c 2%nat + amt r1 2%nat + amt r2 2%nat + 1 = tsup s 2%nat
+  | _, _, _, _ => False
+  end.
+Proof. vm_compute. reflexivity. Qed.
